@@ -458,6 +458,33 @@ func cancelWorker(req N) (resp N) {
 		t0 = time.Now()
 		_, err = machine.Call(ctx, jo.(*object.Function), nil)
 		hostCancel() // the thread of the first run must stop with ITS context: its ticks are sampled below
+	} else if reuse == "busy" {
+		// while the script runs, a host builtin it calls asks the SAME VM for a Call and a Run: both are refused
+		// ("vm is already running", VMRun!RefusedStart: nothing changes) and the run in progress must still stop
+		// when its context is done
+		machine, verr := vm.NewEmpty()
+		if verr != nil {
+			return N{"k": "novm", "msg": verr.Error()}
+		}
+		var refused int64
+		busy := object.NewBuiltin("zzbusy", func(c context.Context, args ...object.Object) object.Object {
+			if len(args) == 1 {
+				if fn, ok := args[0].(*object.Function); ok {
+					if _, cerr := machine.Call(c, fn, nil); cerr != nil {
+						atomic.AddInt64(&refused, 1)
+					}
+				}
+			}
+			if rerr := machine.Run(c); rerr != nil {
+				atomic.AddInt64(&refused, 1)
+			}
+			return object.Nil
+		})
+		_, err = risor.Eval(ctx, "zzbusy(func() { return 1 })\n"+src, risor.WithOS(vos), risor.WithConcurrency(), risor.WithGlobal("tick", tick),
+			risor.WithGlobal("zzbusy", busy), risor.WithVM(machine))
+		if atomic.LoadInt64(&refused) != 2 {
+			return N{"k": "nobusy", "msg": fmt.Sprintf("%d of 2 requests on the busy VM were refused (%v)", refused, err)}
+		}
 	} else if reuse != "" {
 		// one VM, two runs under the SAME context, which is done before the second run starts: cancelled while
 		// the VM was idle ("idle": the first run is a trivial program) or during the first run ("during": the
